@@ -142,8 +142,16 @@ def prov_sym(ctx):
         tup = res[1][3][0][1]
         if tup[0] == "tuple" and len(tup[1]) == 2:
             swaps = [x for s in sts for e in T.stmt_exprs(s) for x in T.sx_calls(e, "mem::swap")]
-            ok = is_var(tup[1][1], name) and tup[1][0][0] == "var" and len(swaps) == 1 and \
-                {tup[1][0][1], "codewords"} == {tup[1][0][1], "codewords"} and any(_field_of_self(a, "codewords") for a in swaps[0][2]) and any(is_var(a, tup[1][0][1]) for a in swaps[0][2])
+            first = tup[1][0]
+            if first[0] == "var":
+                src = [s for s in sts if s[0] == "let" and s[1] == first[2]]
+                if src and src[0][3][0] == "call" and (src[0][3][1].endswith("mem::take") or src[0][3][1].endswith("mem::replace")):
+                    first = src[0][3]
+            if first[0] == "call" and (first[1].endswith("mem::take") or first[1].endswith("mem::replace")):
+                ok = is_var(tup[1][1], name) and _field_of_self(first[2][0], "codewords")
+            else:
+                ok = is_var(tup[1][1], name) and first[0] == "var" and len(swaps) == 1 and \
+                    any(_field_of_self(a, "codewords") for a in swaps[0][2]) and any(is_var(a, first[1]) for a in swaps[0][2])
     obs.append(Ob(r, "returned", ok, "the result is (the encoder's codeword vector, the chosen symbol)", site=site))
     # symbol_for
     sf = _fn(f, "GenericDataEncoder::symbol_for", r)
